@@ -62,6 +62,7 @@ class FakeTransport(asyncio.Transport):
         super().__init__()
         self.peer = peer
         self.out: List[bytes] = []
+        self.ops: List[Tuple] = []  # everything the protocol did to the transport, in order
         self.closed = False
         self.eof = False
         self.close_calls = 0
@@ -74,12 +75,15 @@ class FakeTransport(asyncio.Transport):
 
     def write(self, data):
         self.out.append(bytes(data))
+        self.ops.append(("write", bytes(data)))
 
     def writelines(self, lines):
         self.out.extend(bytes(x) for x in lines)
+        self.ops.append(("write", b"".join(bytes(x) for x in lines)))
 
     def write_eof(self):
         self.eof = True
+        self.ops.append(("eof",))
 
     def can_write_eof(self):
         return True
@@ -87,6 +91,7 @@ class FakeTransport(asyncio.Transport):
     def close(self):
         self.closed = True
         self.close_calls += 1
+        self.ops.append(("close",))
 
     def abort(self):
         self.closed = True
